@@ -62,7 +62,8 @@ REGION_OF_FUNC = {   # descriptor name fragment -> harness region(s)
     "triangulate#1": ["tri"], "matrix_from_callback#1": ["cli"],
 }
 COMBOS_QUICK = ["1:1:0", "2:1:0", "2:2:1", "3:1:0", "3:2:1", "3:1:1", "8:1:0", "8:2:1", "8:3:0", "16:1:0", "16:2:1"]
-COMBOS_THOROUGH = COMBOS_QUICK + ["2:3:0", "3:3:0", "5:2:2", "8:1:1", "16:3:0", "16:1:1", "7:2:3"]
+COMBOS_THOROUGH = COMBOS_QUICK + ["2:3:0", "3:3:0", "5:2:2", "8:1:1", "16:3:0", "16:1:1", "7:2:3"] + \
+    ["%d:2:1" % t for t in (4, 6, 9, 10, 11, 12, 13, 14, 15)]      # every thread count 1..16 appears
 TOL = 1e-10
 
 
